@@ -23,10 +23,10 @@ def gen_cases(tier, seed, path):
     parts = []
     if tier == "quick":
         plan = [("exhaustive", ["-len", "3"]), ("random", ["-n", "6000", "-seed", str(seed)]),
-                ("corpus", ["-n", "150", "-seed", str(seed)]), ("big", ["-n", "65536"]), ("boundary", [])]
+                ("corpus", ["-n", "150", "-seed", str(seed)]), ("big", ["-n", "65536"]), ("boundary", []), ("idents", [])]
     else:
         plan = [("exhaustive", ["-len", "4"]), ("random", ["-n", "200000", "-seed", str(seed)]),
-                ("corpus", ["-n", "0"]), ("big", ["-n", "1048576"]), ("boundary", [])]
+                ("corpus", ["-n", "0"]), ("big", ["-n", "1048576"]), ("boundary", []), ("idents", [])]
     dist = {}
     with open(path, "w") as f:
         for mode, extra in plan:
@@ -96,12 +96,14 @@ def lexer_premise(rep, broken, want):
             return False
     res = run_batch(rep, "quick")
     found = False
+    hangs = [x for x in res["panics"] if "RUNAWAY" in x[2] or "HANG" in x[2]]
+    real_panics = [x for x in res["panics"] if x not in hangs]
     if "panic" in want:
-        for (i, c, g) in res["panics"][:5]:
+        for (i, c, g) in real_panics[:5]:
             found = True
             rep.violation("input", "lexer.Tokenize panics (Parse runs it on the caller's goroutine): %s" % g[:200], {"input_hex": c, "case": i}, input_hex=c)
     if "runaway" in want:
-        for (i, c, clause) in [b for b in res["bad"] if "RUNAWAY" in b[2]][:5]:
+        for (i, c, clause) in hangs[:5]:
             found = True
             rep.violation("input", "lexer.Tokenize does not reach EOF, so Parse does not terminate: %s" % clause[:200], {"input_hex": c, "case": i, "clause": clause}, input_hex=c)
     for e in res["errors"]:
